@@ -445,7 +445,7 @@ def run_ops(args: dict) -> dict:
     clock.schedule = list(args.get("clock") or [])
     out = []
     for op in args["ops"]:
-        out.append(do_op(op, files))
+        out.append(json.loads(json.dumps(do_op(op, files))))  # plain JSON types only (lark Tokens are str subclasses)
     return {"obs": out, "clock_reads": clock.reads, "clock_jumps": clock.jumps, "opens": _seams["opens"]}
 
 
@@ -581,3 +581,107 @@ def c19_candidates(case: dict):
             if len(new) < n and any(x.startswith("EventType") for x in new):
                 yield {**case, "file": {**case["file"], "text": "\n".join(new)}}
         size //= 2
+
+
+# ------------------------------------------------------------------ C20: histories
+def op_kind(op: dict) -> str:
+    if op["op"] == "read":
+        return f"read:{op['cls']}:{op.get('by', 'file')}"
+    return f"convert:{op['lang']}:{'cli' if op.get('via') == 'cli' else ('ret' if op.get('ret') else 'print')}"
+
+
+def op_key(op: dict) -> str:
+    return op_kind(op) + "@" + op["file"]
+
+
+def gen_history(rng: random.Random, pool: list, cfg: dict | None = None) -> dict:
+    cfg = cfg or {}
+    n = rng.randint(2, cfg.get("max_ops", 5))
+    ops = []
+    by_size = sorted(range(len(pool)), key=lambda i: -len(pool[i].get("resonances", [])))
+    last_file, last_cls = None, None
+    for k in range(n):
+        # bias: different file than the previous op; richer files first (residue shows when a poorer file follows)
+        choices = [i for i in range(len(pool)) if i != last_file] or list(range(len(pool)))
+        if rng.random() < 0.5:
+            pos = min(len(by_size) - 1, int(abs(rng.gauss(0, 1)) + k * 0.7))
+            fi = by_size[pos] if by_size[pos] in choices else rng.choice(choices)
+        else:
+            fi = rng.choice(choices)
+        last_file = fi
+        is_last = k == n - 1
+        if rng.random() < (0.75 if is_last else 0.5):
+            op = {"op": "convert", "lang": rng.choice(["cpp", "py"]), "file": pool[fi]["name"], "ret": rng.random() < 0.8}
+            cls = "GooFitChain" if op["lang"] == "cpp" else "GooFitPyChain"
+        else:
+            cls = rng.choice([c for c in READERS if c != last_cls] or list(READERS))
+            op = {"op": "read", "cls": cls, "file": pool[fi]["name"], "by": rng.choice(["file", "text"])}
+        last_cls = cls
+        ops.append(op)
+    r = rng.random()
+    clock = [] if r < 0.6 else [rng.choice([0, 2.5, -3600.0, 86400.0]) for _ in range(n)]
+    return {"ops": ops, "clock": clock}
+
+
+def compare_obs(a: dict, b: dict):
+    """normalised equality of two observations of the same call; returns None or a difference"""
+    if a["kind"] != b["kind"]:
+        return {"at": "kind", "a": a["kind"] + (":" + a.get("exc", "") if a["kind"] == "raise" else ""), "b": b["kind"] + (":" + b.get("exc", "") if b["kind"] == "raise" else "")}
+    return first_diff(normalise_obs(a), normalise_obs(b))
+
+
+def run_history_case(case: dict) -> dict:
+    """Self-contained replay of a C20 history violation: pristine replicas are
+    forked from this (still untouched) process, then the history runs here."""
+    from simkit.forkcall import fork_call
+
+    pool = case["pool"]
+    ops = case["ops"]
+    out = {"verdict": "ok"}
+    if case.get("mode") == "twice":
+        a = fork_call(run_ops, {"pool": pool, "ops": ops, "clock": case.get("clock")}, limit_s=case.get("limit_s", 900))
+        b = fork_call(run_ops, {"pool": pool, "ops": ops, "clock": case.get("clock")}, limit_s=case.get("limit_s", 900))
+        for i, (x, y) in enumerate(zip(a["obs"], b["obs"])):
+            if x != y:
+                out.update(verdict="violation", signature={"check": "exact_reproducibility"}, detail={"op_index": i, "op": ops[i], "diff": first_diff(x, y)})
+                break
+        return out
+    refs = [fork_call(run_ops, {"pool": pool, "ops": [op]}, limit_s=case.get("limit_s", 900))["obs"][0] for op in ops]
+    hist = run_ops({"pool": pool, "ops": ops, "clock": case.get("clock")})["obs"]
+    for i, (h, r) in enumerate(zip(hist, refs)):
+        d = compare_obs(r, h)
+        if d is not None:
+            out.update(verdict="violation", signature={"check": "history_independence", "kind": op_kind(ops[i]).rsplit(":", 1)[0]},
+                       detail={"op_index": i, "op": ops[i], "history_before": [op_key(o) for o in ops[:i]], "fresh_vs_history": d})
+            break
+    return out
+
+
+def c20_candidates(case: dict):
+    ops = case["ops"]
+    # drop earlier operations (keep the last one: it is the one that shows the residue)
+    for i in range(len(ops) - 1):
+        yield {**case, "ops": ops[:i] + ops[i + 1 :], "clock": []}
+    if len(ops) > 1:
+        yield {**case, "ops": ops[:-1], "clock": []}
+    if case.get("clock"):
+        yield {**case, "clock": []}
+    used = {o["file"] for o in ops}
+    pool = case["pool"]
+    if any(f["name"] not in used for f in pool):
+        yield {**case, "pool": [f for f in pool if f["name"] in used]}
+    # reads instead of conversions for the earlier steps, plain variants
+    for i, o in enumerate(ops[:-1]):
+        if o["op"] == "convert":
+            yield {**case, "ops": ops[:i] + [{"op": "read", "cls": "GooFitChain" if o["lang"] == "cpp" else "GooFitPyChain", "file": o["file"], "by": "file"}] + ops[i + 1 :]}
+    # smaller files: drop lines of each pool file
+    for fi, f in enumerate(pool):
+        lines = f["text"].split("\n")
+        n = len(lines)
+        size = n // 2
+        while size >= 1:
+            for start in range(0, n, size):
+                new = lines[:start] + lines[start + size :]
+                if len(new) < n and any(x.startswith("EventType") for x in new):
+                    yield {**case, "pool": pool[:fi] + [{**f, "text": "\n".join(new)}] + pool[fi + 1 :]}
+            size //= 2
